@@ -225,7 +225,8 @@ def check_c20(tier):
                  time_budget=budget(tier, 300, 1500))
     # undo()/redo() with nothing to do, refused edits inside longer histories: the E2 sequences
     # of C02 carry the refresh counter on every call
-    res = merge_results(res, run_e2("C20", tier, "C02", [(M1, 4 if q else 6), (M2, 3 if q else 5), (M1B, 4 if q else 5)],
+    res = merge_results(res, run_e2("C20", tier, "C02", [(M1, 4 if q else 6), (M2, 3 if q else 5), (M1B, 4 if q else 5),
+                                                       (M_SEG_REFUSED, 4 if q else 6)],
                                     time_budget=budget(tier, 60, 900)))
     return merge_results(res, long_histories("C20", tier))
 
@@ -344,7 +345,7 @@ def check_c09(tier):
              max_states=None if q else 3000),
     ]
     res = run_e1("C09", tier, stages, dict(undo_probe=True), time_budget=budget(tier, 400, 3000))
-    return merge_results(res, run_e2("C09", tier, "C10", [(C09_TOGGLE, 3 if q else 4)],
+    return merge_results(res, run_e2("C09", tier, "C10", [(C09_TOGGLE, 3 if q else 4), (C09_TOGGLE_EDGE, 5 if q else 7)],
                                      alias={"enabled-iou-wrong": "C09"}, time_budget=budget(tier, 60, 900)))
 
 
@@ -473,6 +474,15 @@ M_REFUSED = dict(name="M-refused-chain", world="noseg-2d", seed="chain", items=[
     ("add_edge", 3, 1, False),           # always refused (not forward in time)
     UNDO, REDO,
 ])
+# a refused stroke (new label continuing a track that divided upstream, no force) between
+# accepted calls: whatever the refused call switched off must be back on for the next call
+M_SEG_REFUSED = dict(name="M-seg-refused", world="seg-2d", seed="div", items=[
+    ("paint", 2, [[2, 2, 3, 3], [3, 4, 3, 4]], 5, 1, False, "refused-new"),   # always refused
+    ("paint", 0, [[1], [2]], 0, 9, False, "part1"),                            # shrink node 1
+    ("del_edge", 2, 4),
+    ("set_attr", 3, "score", 2.5),
+    UNDO, REDO,
+])
 # two nested levels of divisions: relabelling walks that start above them, in every order of
 # cutting / re-attaching (undo of a cut re-inserts the edge at the end of the successor list)
 M_NESTED = dict(name="M-nested-divisions", world="noseg-2d", seed="nested", items=[
@@ -579,6 +589,14 @@ C09_TOGGLE = dict(name="C09-toggle-skip", world="seg-2d", seed="skip", items=[
     ("paint", 2, [[0, 0], [1, 3]], 2, 9, False, "grow2"),
     ("add_node", 4, 1, 1, False, "ok", [[0, 0, 1, 1], [0, 1, 0, 1]]),
     ("del_node", 2),
+    ("undo",), ("redo",),
+])
+# an edge deleted while IoU is switched off (its stored value is stale by then) and brought back by
+# undo after IoU was switched on again: dis, stroke, delete edge, en, undo needs length 5
+C09_TOGGLE_EDGE = dict(name="C09-toggle-edge", world="seg-2d", seed="skip", items=[
+    _DIS("iou"), _EN("iou"),
+    ("paint", 0, [[0], [0]], 0, 9, False, "part1"),
+    ("del_edge", 1, 2),
     ("undo",), ("redo",),
 ])
 
